@@ -31,6 +31,15 @@ func fsMark(op string, n int, what string) {
 	syscall.Faccessat(atFDCWD, p, 0, 0)
 }
 
+var fsEnded bool
+
+func fsEnd() {
+	if !fsEnded {
+		fsEnded = true
+		fsMark("end", 0, "ack")
+	}
+}
+
 // operation kinds (also the numeric codes of the Mark events)
 var fsOpCode = map[string]int{"store": 1, "delete": 2, "open": 3, "close": 4, "wait": 5, "fs": 6}
 
@@ -48,14 +57,11 @@ func fsChildMain(args []string) int {
 	// the first marker lets the parent discard everything strace logged while
 	// it was attaching / the runtime was starting
 	fsMark("start", 0, "call")
-	var rc int
+	defer fsEnd() // error paths return before the workload's own end marker
 	if mode == "wal" {
-		rc = fsChildWAL(dir, seg, ops)
-	} else {
-		rc = fsChildFS(dir, seg, ops)
+		return fsChildWAL(dir, seg, ops)
 	}
-	fsMark("end", 0, "ack")
-	return rc
+	return fsChildFS(dir, seg, ops)
 }
 
 func segFiles(dir string) []string {
@@ -213,6 +219,7 @@ func fsChildWAL(dir string, seg int, ops []string) int {
 		w.Close()
 		fsMark("close", len(ops), "ack")
 	}
+	fsEnd()
 	// read the whole log back after a reopen (content survives, sizes sane)
 	w2, err := wal.Open(dir, wal.WithSegmentSize(seg))
 	if err != nil {
@@ -253,9 +260,6 @@ func fsChildFS(dir string, seg int, ops []string) int {
 				h[f[1]] = wf
 			}
 		case "ow":
-			if old := h[f[1]]; old != nil {
-				old.Close()
-			}
 			var wf types.WritableFile
 			wf, err = vfs.OpenWriter(dir, name(f[1]))
 			if err == nil {
@@ -275,10 +279,6 @@ func fsChildFS(dir string, seg int, ops []string) int {
 			err = h[f[1]].Close()
 			delete(h, f[1])
 		case "de":
-			if old := h[f[1]]; old != nil {
-				old.Close()
-				delete(h, f[1])
-			}
 			err = vfs.Delete(dir, name(f[1]))
 		case "mi":
 			mdb = &metadb.BoltMetaDB{}
@@ -298,6 +298,7 @@ func fsChildFS(dir string, seg int, ops []string) int {
 			return 1
 		}
 	}
+	fsEnd()
 	for _, wf := range h {
 		wf.Close()
 	}
